@@ -126,7 +126,31 @@ Proof.
   exact permute_tri6_faces.
 Qed.
 
-(* ---- readers, THE WHOLE FILE (model/M_C13_ReadFile.v: read_exodus maps the file content -- 1-based block connectivity records,
+(* ---- readers, THE WHOLE FILE.  THE REPOSITORY'S READER is [read_exodus_checked] (model/M_C13_ReadChk.v) since /repo ce166ed: after the
+        auto-naming loops _read_blocks / _read_node_sets / _read_side_sets call _check_names_are_distinct, which raises ValueError when the
+        final names of a kind coincide (None in the model); otherwise the reader does what [read_exodus] (model/M_C13_ReadFile.v, the reader
+        WITHOUT the name check = the code before ce166ed) does.  The tie (every run): the real reader against read_exodus_checked on
+        in-memory files with distinct AND with coinciding final names (accept / ValueError and the whole mesh) and on the repository's
+        Exodus fixtures; an AST check that the three calls sit between the auto-naming loop and the first use of the names.
+        HEADLINE, no hypothesis on names: on every well-formed file the reader either rejects -- exactly when some final names coincide --
+        or returns a mesh with one element per file row (node ids in range, 3 / 6 entries per row), every block / node set / side set of the
+        file present (counts equal, blocks partition 0..nE-1 in order, node-set member total preserved) and block_maps whose entries in
+        order are the element number map in force.  Per-record detail: C13_read_exodus_checked_no_loss, C13_read_block_maps below. *)
+Theorem C13_read_exodus_mesh_whole_file : forall six aB aN aS f, exo_wf six f ->
+  match read_exodus_checked six aB aN aS f with
+  | None => ~ (NoDup (final_names aB 0 (ef_bnames f)) /\ NoDup (final_names aN 0 (ef_nsnames f)) /\ NoDup (final_names aS 0 (ef_ssnames f)))
+  | Some r =>
+      (NoDup (final_names aB 0 (ef_bnames f)) /\ NoDup (final_names aN 0 (ef_nsnames f)) /\ NoDup (final_names aS 0 (ef_ssnames f)))
+      /\ length (rm_conns r) = list_sum (map (@length _) (ef_blocks f))
+      /\ Forall (Forall (fun n => n < ef_nnodes f)) (rm_conns r) /\ Forall (fun row => length row = if six then 6 else 3) (rm_conns r)
+      /\ length (rm_blocks r) = length (ef_blocks f) /\ concat (map snd (rm_blocks r)) = seq 0 (length (rm_conns r))
+      /\ length (rm_nodesets r) = length (ef_nodesets f) /\ members (rm_nodesets r) = list_sum (map (@length _) (ef_nodesets f))
+      /\ length (rm_sidesets r) = length (ef_sidesets f)
+      /\ forall emap, (match emap with Some l => length l = length (rm_conns r) | None => True end) ->
+           concat (map snd (read_block_maps emap (rm_blocks r))) = match emap with Some l => l | None => seq 1 (length (rm_conns r)) end
+  end.
+Proof. exact read_exodus_checked_whole_file. Qed.
+(* ---- the reader without the name check (model/M_C13_ReadFile.v: read_exodus maps the file content -- 1-based block connectivity records,
         node-set records, (element, side) records, name records with empty names -- to the mesh's connectivity, blocks, node sets,
         side sets and simplexNodesOrdinals; six = 6-node triangles).  [exo_wf]: ids in the file are in range (1..nnodes, 1..nelems,
         sides 1..3), rows have 3 / 6 entries, one name per record, element and side records of a side set have equal length.
@@ -139,7 +163,8 @@ Theorem C13_read_exodus_elements : forall six aB aN aS f, exo_wf six f ->
   /\ Forall (Forall (fun n => n < ef_nnodes f)) (rm_conns r)
   /\ Forall (fun row => length row = if six then 6 else 3) (rm_conns r).
 Proof. intros six aB aN aS f H. cbv zeta. pose proof (read_exodus_elements six aB aN aS f H) as T. destruct six; exact T. Qed.
-(* blocks / node sets / side sets under PAIRWISE DISTINCT final names (given names, "block_<i+1>" etc. for empty ones) *)
+(* blocks / node sets / side sets of read_exodus under PAIRWISE DISTINCT final names (given names, "block_<i+1>" etc. for empty ones):
+   the lemmas from which the theorems about the checked reader follow (the check establishes exactly this hypothesis) *)
 Theorem C13_read_exodus_blocks : forall six aB aN aS f, exo_wf six f -> NoDup (final_names aB 0 (ef_bnames f)) ->
   let r := read_exodus six aB aN aS f in
   rm_blocks r = combine (final_names aB 0 (ef_bnames f)) (read_block_ranges (ef_blocks f))
@@ -169,9 +194,10 @@ Theorem C13_read_exodus_simplex : forall six aB aN aS f,
   /\ forall x, In x (rm_simplex r) <->
        if six then exists row, In row (read_conns (ef_blocks f)) /\ In x (firstn 3 row) else x < ef_nnodes f.
 Proof. exact read_exodus_simplex. Qed.
-(* the distinct-names hypothesis is NEEDED: a well-formed 3-node file with two blocks, the first NAMED like the auto-generated
-   name of the second ("block_2", id 7), the second unnamed: the reader keeps one block entry and element 0 is in no block
-   (replayed on the implementation on every run; reported, see tools/props/c13.py LEVEL_TEXT) *)
+(* HISTORY (finding C13-READ-NAMES, fixed by ce166ed) and the reason the check exists: the distinct-names hypothesis is NEEDED for
+   read_exodus: a well-formed 3-node file with two blocks, the first NAMED like the auto-generated name of the second ("block_2", id 7),
+   the second unnamed: read_exodus keeps one block entry and element 0 is in no block.  The reader before ce166ed did exactly that; the
+   witness file is replayed on every run and must now be REJECTED (a silently shortened dict is reported as a regression). *)
 Theorem C13_read_exodus_name_clash_refuted :
   exo_wf false clash_file /\ (forall i, clash_auto i <> 0%Z)
   /\ let r := read_exodus false clash_auto clash_auto clash_auto clash_file in
@@ -189,15 +215,15 @@ Example C13_read_exodus_nonvacuous :
   /\ NoDup (final_names clash_auto 0 (ef_nsnames sample_file)) /\ NoDup (final_names clash_auto 0 (ef_ssnames sample_file))
   /\ rm_conns (read_exodus true clash_auto clash_auto clash_auto sample_file) = [[0; 3; 1; 5; 4; 2]; [1; 7; 6; 4; 8; 2]].
 Proof. exact read_exodus_nonvacuous. Qed.
-(* ---- finding C13-READ-NAMES, the repair.  dict(zip(names, vals)) / blocks[name] = ... keeps one entry per record IF AND ONLY IF the
+(* ---- the name check is exactly right.  dict(zip(names, vals)) / blocks[name] = ... keeps one entry per record IF AND ONLY IF the
         names are pairwise distinct; so the distinct-names hypothesis above is not only sufficient but exactly the loss-free case: *)
 Theorem C13_dict_assignment_lossless_iff : forall (V : Type) (names : list Z) (vals : list V), length names = length vals ->
   (length (dict_of names vals) = length names <-> NoDup names).
 Proof. exact @dict_of_lossless_iff. Qed.
-(* [read_exodus_checked] (model/M_C13_ReadChk.v) is the reader with the PROPOSED patch (after the auto-naming loops:
-   `if len(set(names)) != len(names): raise ValueError`): it accepts exactly the files with pairwise distinct final names and returns
-   what the present reader returns; it rejects exactly the well-formed files on which the present reader drops a record; on every
-   accepted file nothing is lost, with NO hypothesis on the names (tied to the patched source text applied in memory, on every run). *)
+(* [read_exodus_checked] (the repository's reader, ce166ed: `if len(set(names)) != len(names): raise ValueError` after the auto-naming
+   loops) accepts exactly the files with pairwise distinct final names and returns what read_exodus returns; it rejects exactly the
+   well-formed files on which read_exodus (the reader before the fix) drops a record -- no over-rejection; on every accepted file nothing
+   is lost, with NO hypothesis on the names. *)
 Theorem C13_read_exodus_checked_spec : forall six aB aN aS f,
   (forall r', read_exodus_checked six aB aN aS f = Some r'
      <-> (NoDup (final_names aB 0 (ef_bnames f)) /\ NoDup (final_names aN 0 (ef_nsnames f)) /\ NoDup (final_names aS 0 (ef_ssnames f)))
@@ -229,7 +255,7 @@ Proof. exact read_exodus_checked_no_loss. Qed.
 (* ---- block_maps (_read_block_maps: iterates over the blocks DICT and slices the element number map, the file's elem_num_map or
         1..nE): under distinct names block b's entry is the slice [first_b, first_b + n_b) of the map in force and the slices in
         order are the whole map.  With a name clash block_maps are misaligned too (the surviving block of the witness file, which
-        holds element 1, gets the global number of element 0) -- same finding. *)
+        holds element 1, gets the global number of element 0) -- same (fixed) finding; the checked reader rejects that file. *)
 Theorem C13_read_block_maps : forall six aB aN aS f, exo_wf six f -> NoDup (final_names aB 0 (ef_bnames f)) ->
   forall emap, (match emap with Some l => length l = length (rm_conns (read_exodus six aB aN aS f)) | None => True end) ->
   let r := read_exodus six aB aN aS f in
@@ -256,8 +282,9 @@ Example C13_read_checked_nonvacuous :
 Proof. exact read_checked_nonvacuous. Qed.
 (* NOT PROVED (readers): the netCDF / JSON file layer (bytes -> records), name decoding and the masked-array handling of coordx /
    coordy (.filled()) are outside the model (the reader code runs unchanged on a stand-in Dataset).  That the repository's reader IS
-   the checked reader is false today (open finding C13-READ-NAMES); the checked reader is the proposed patch, tied by applying the
-   patch text to the source in memory on every run. *)
+   read_exodus_checked is not a theorem but is TIED on every run: exact comparison of the real reader (accept / ValueError, whole mesh,
+   block_maps) with the model on files with distinct and with coinciding final names, plus the fail-closed AST check of the three
+   _check_names_are_distinct calls (tools/props/c13.py names_check_structure). *)
 
 (* ---- order elevation, numbering only: the ids handed to the slots (vertex), (edge e, k < p-1), (element t, k < nInt) are
         exactly 0 .. nV + nE(p-1) + nT*nInt - 1, each once (no duplicate, no unused id), and the right element receives the
@@ -554,7 +581,7 @@ Print Assumptions C13_elevate_affine_right.
 Print Assumptions C13_elevated_mesh_certified.
 Print Assumptions C13_elevated_mesh_shape.
 Print Assumptions C13_read_exodus_sidesets.
-Print Assumptions C13_read_exodus_rejects_iff_record_lost.
+Print Assumptions C13_read_exodus_mesh_whole_file.
 Print Assumptions C13_read_block_maps.
 Print Assumptions C13_isoparametric_map_is_affine_exact.
 Print Assumptions C13_elevated_jacobian_certified.
